@@ -5,7 +5,7 @@ package utils
 //@ func Retry
 //@   props C08 C12 C20
 //@   note frame trusted: besides calling f, Retry only sleeps and logs (f is an arbitrary func value inside the body)
-//@   lastcall f
+//@   lastcall f failures_are_atomic
 //@   trustframe
 //@   assigns X.retry
 //@   ensures at_least_once: true
